@@ -29,7 +29,7 @@ pub fn corpus(d: &mut D, enc_ctx: u64, dst: u8) -> Vec<Vec<u8>> {
     v.push(d.enc_gen(enc_ctx, "req", "spdm", json!({"dst":dst,"has_hdr":0,"hdr":[],"data":[16,132,0,0]}), 64));
     v.push(d.enc_gen(enc_ctx, "req", "secured", json!({"dst":dst,"has_hdr":1,"hdr":[1,2],"data":jb(&m1)}), 64));
     v.push(d.enc_gen(enc_ctx, "req", "pci", json!({"dst":dst,"has_hdr":0,"hdr":[],"data":[]}), 64));
-    v.retain(|p| !p.is_empty());
+    v.retain(|p| p.len() >= 10);
     v
 }
 
@@ -320,7 +320,7 @@ pub fn mutate(d: &mut D) {
         }
     }
     // random multi-field mutations and lengths
-    for _ in 0..(if d.thorough { 60000 } else { 4000 }) {
+    for _ in 0..(if pkts.is_empty() { 0 } else if d.thorough { 60000 } else { 4000 }) {
         let mut q = d.g.pick(&pkts).clone();
         let nm = 1 + d.g.below(3);
         for _ in 0..nm {
@@ -533,8 +533,9 @@ pub fn robust(d: &mut D) {
 /// Build a library-encoded request and patch source address / EID, instance id and D bit.
 fn forge_req(d: &mut D, enc_ctx: u64, name: &str, args: Value, src: u8, iid: u8, dbit: u8) -> Vec<u8> {
     let mut p = d.enc_req(enc_ctx, name, args);
-    if p.is_empty() {
-        return p;
+    if p.len() < 12 {
+        // refused, panicked, or (with a broken encoder) not even a control packet: nothing to forge from
+        return Vec::new();
     }
     p[3] = (src << 1) | 1;
     p[6] = src;
@@ -631,7 +632,7 @@ pub fn forge(d: &mut D) {
                     continue;
                 }
                 q[5] = eid; // destination EID = the EID the endpoint was given
-                if *name == "set_endpoint_id" && q[11] < 2 {
+                if *name == "set_endpoint_id" && q.len() > 12 && q[11] < 2 {
                     q[12] = eid; // re-assigning the same EID
                 }
                 fix_pec(&mut q);
@@ -789,6 +790,9 @@ pub fn history(d: &mut D) {
                     // corrupted / truncated assignment
                     let eid = 1 + d.g.below(254);
                     let mut p = forge_req(d, 1, "set_endpoint_id", json!({"dst":addr,"operation":0,"eid":eid}), src, iid, 0);
+                    if p.len() < 14 {
+                        continue;
+                    }
                     match d.g.below(4) {
                         0 => {
                             let i = d.g.below(p.len() as u64) as usize;
@@ -859,6 +863,9 @@ pub fn history(d: &mut D) {
                 13 => {
                     // reserved EIDs 0x00 / 0xFF: outside the property's range, either behaviour accepted
                     let mut p = forge_req(d, 1, "set_endpoint_id", json!({"dst":addr,"operation":0,"eid":1}), src, iid, 0);
+                    if p.len() < 14 {
+                        continue;
+                    }
                     p[12] = if d.g.chance(1, 2) { 0 } else { 0xFF };
                     fix_pec(&mut p);
                     d.process(c, &p);
@@ -866,6 +873,9 @@ pub fn history(d: &mut D) {
                 14 => {
                     // unsupported operation values and commands
                     let mut p = forge_req(d, 1, "set_endpoint_id", json!({"dst":addr,"operation":0,"eid":9}), src, iid, 0);
+                    if p.len() < 14 {
+                        continue;
+                    }
                     p[11] = 2 + d.g.below(254) as u8;
                     fix_pec(&mut p);
                     d.process(c, &p);
@@ -1030,8 +1040,10 @@ pub fn identity(d: &mut D) {
                     }
                     _ => {
                         let mut p = forge_req(d, 1, "get_endpoint_uuid", json!({"dst":addr}), 0x10, 1, 0);
-                        let i = d.g.below(p.len() as u64) as usize;
-                        p[i] ^= 0x04;
+                        if !p.is_empty() {
+                            let i = d.g.below(p.len() as u64) as usize;
+                            p[i] ^= 0x04;
+                        }
                         d.process(5, &p);
                     }
                 }
@@ -1245,7 +1257,7 @@ pub fn bus(d: &mut D) {
         let exchange = |d: &mut D, name: &str, args: Value, iid: u8, late: &mut Option<Vec<u8>>| -> Option<Vec<u8>> {
             for _try in 0..3 {
                 let mut p = d.enc_req(7, name, args.clone());
-                if p.is_empty() {
+                if p.len() < 12 {
                     return None;
                 }
                 p[9] = 0x80 | iid;
